@@ -14,7 +14,7 @@ LEVEL = "model_checking"
 CODE_DEV = ["UserLookupGap"]
 
 KIND = {"conn": 1, "connr": 2, "serve": 3, "update": 4, "commit": 5}
-ALL_GATES = ["resolved", "miss", "failed", "unlocked", "queued", "closed", "lockedA", "lockedQ", "collected"]
+ALL_GATES = ["auth", "resolved", "miss", "failed", "unlocked", "queued", "closed", "lockedA", "lockedQ", "collected"]
 
 ASSUME = [
     "all users are limited users (bypass users and the admin UID are not modelled)",
@@ -224,7 +224,7 @@ ROUND_GATES = ["lockedA", "lockedQ", "collected", "queued", "closed", "unlocked"
 
 RULE = ("B1: maximal behaviours of UserPanelGen (goroutine programs of connection admissions, session reaping, updateUsageQueue and "
         "commitUpdate; environment = which parked goroutine runs next); exhaustive BFS for the 3-goroutine programs, TLC -simulate for "
-        "the larger ones; the counter-example schedules of the deviant configurations (lock order A->Q, stale terminate) are replayed "
+        "the larger ones; the counter-example schedules of the deviant configurations (lock order A->Q, stale terminate, GetUser check-then-act) are replayed "
         "on every run as hypotheses. B2: rounds of 2-6 operations started simultaneously on one panel, trace validated by "
         "UserPanelTrace. non-trivial = two goroutines inside an operation at the same time or one blocked on a lock; distinct = "
         "distinct (program, schedule)")
@@ -331,6 +331,8 @@ def run(ctx):
         jobs.mc("neg_lockorder", cfg([(U, U, M)], dev=["PanelLockOrderAQ"], inv="NoDeadlock"), expect="NoDeadlock")
         jobs.mc("neg_gap", cfg([(S11, C12, C12)], dev=["UserLookupGap"], inv="Owned"), expect="Owned")
         jobs.mc("neg_stale", cfg([(S11, R12, C12, C12)], dev=["UserLookupGap", "StaleTerminate"], inv="OwnedNoStale"), expect="OwnedNoStale")
+        jobs.mc("neg_getuser", cfg([(C11, C11, C12)], dev=CODE_DEV + ["GetUserCheckThenAct"], init=(), inv="OwnedNoGetUserRace"),
+                expect="OwnedNoGetUserRace")
         # ---- behaviours
         # D9: every schedule of {reaper of the last session, two connections} - the model's Owned counter-examples among them
         jobs.gen("gap", cfg([(S11, C12, C12)], gates=n(["resolved", "unlocked", "closed"], CONN_GATES), depth=14))
@@ -339,20 +341,24 @@ def run(ctx):
                  mode="hypo", keep=is_dead)
         jobs.gen("stale", cfg([(S11, R12, C12, C12)], dev=CODE_DEV + ["StaleTerminate"], gates=["unlocked"], depth=12),
                  mode="hypo", keep=lambda b: has_unowned(b, "stale-terminate"))
+        # simultaneous FIRST connections of a user, parked inside AuthenticateUser (between GetUser's look-up and its store)
+        jobs.gen("getuser", cfg([(C11, C11, C12)], dev=CODE_DEV + ["GetUserCheckThenAct"], init=(), gates=["auth", "resolved"], depth=12),
+                 mode="hypo", keep=lambda b: has_unowned(b, "getuser-check-then-act"))
         # the general mix: rounds overlapping connects, reaps and terminations
         jobs.gen("rounds", cfg([(S11, U, M, U, M), (S11, C12, U, M), (S11, R12, U, M, C12)], gates=ROUND_GATES + ["resolved"], depth=20,
                                admin=["expire", "unexpire"], maxadmin=1), simulate=n(200, 4000))
         jobs.gen("mix2", cfg([(op("serve", 1, 1), op("serve", 2, 1), op("conn", 1, 2), op("connr", 2, 2), U, M)], nu=2, init=(11, 21),
                              gates=CONN_GATES + ["lockedQ"], depth=20, admin=["expire"], maxadmin=1), simulate=n(120, 3000))
         gens = jobs.gens()
-        for name in ("lockorder", "stale", "gap"):
+        gens["getuser"] = thin(gens["getuser"], n(60, 400), ctx.seed)
+        for name in ("lockorder", "stale", "gap", "getuser"):
             if not gens[name]:
                 raise lib.Inconclusive("TLC produced no behaviour for " + name)
         gapcex = [b for b in gens["gap"] if has_unowned(b, "lookup-gap")]
         if "UserLookupGap" in CODE_DEV and not gapcex:
             raise lib.Inconclusive("the model with Dev=%s has no Owned counter-example among the gap behaviours" % CODE_DEV)
         gens["gap"] = thin(gapcex, n(120, 10 ** 9), ctx.seed) + thin([b for b in gens["gap"] if not has_unowned(b)], n(120, 10 ** 9), ctx.seed)
-        allb = [b for k in ("lockorder", "stale", "gap", "rounds", "mix2") for b in gens[k]]
+        allb = [b for k in ("lockorder", "stale", "getuser", "gap", "rounds", "mix2") for b in gens[k]]
         res = replay_behaviours(ctx, allb)
         classify(ctx, res, KEYS)
         require_reproduced(ctx, res, "owned:lookup-gap-vs-terminate", len(gapcex), "a live session on a record the panel no longer knows")
@@ -367,7 +373,7 @@ def run(ctx):
             "traces_validated_against_impl": len(allb) + tacc, "exhaustive": True,
             "behaviours_replayed": {k: len(gens[k]) for k in gens}, "replay_steps": st.get("steps", 0),
             "model_counterexamples_replayed": {"lookup_gap": len(gapcex), "lockorder_hypotheses": len(gens["lockorder"]),
-                                               "stale_hypotheses": len(gens["stale"])},
+                                               "stale_hypotheses": len(gens["stale"]), "getuser_hypotheses": len(gens["getuser"])},
             "hypotheses": {k: x for k, x in st.items() if k.startswith("hypothesis_")},
             "trace_events_validated": tevents, "trace_worlds": len(traces), "trace_rounds": tr.get("stats", {}).get("rounds", 0),
             "programs": [list(p) for p in n(big, huge)] + [list(p) for p in term], "code_dev": CODE_DEV,
